@@ -1,9 +1,11 @@
 """C02 — the time table is the strictly increasing list of recorded time steps."""
-from . import core, storegen, c04
+from . import core, storegen, c04, vcdgen
 
 RULE = ("store histories (hook-driven wavemem::Encoder) with repeated / backwards / equal-after-backwards timestamps, first timestamp > 0, "
         "65534..65537, 131069..131072 and 200000 accepted steps, encoder splits; real code vs Lean Store model vs Spec.run "
-        "(time table = strictPrefixMax of the timestamps; indices recorded against it). non-trivial = table has >= 2 entries")
+        "(time table = strictPrefixMax of the timestamps; indices recorded against it). Plus whole VCD files (`vcd` requests of C01: path and reader entry points) "
+        "whose bodies are rich in timestamps: steps without any change, a last timestamp directly at the end of the file or followed by a blank / CR only, "
+        "repeated and backwards stamps. non-trivial = table has >= 2 entries")
 
 
 def requests(ctx):
@@ -18,6 +20,11 @@ def requests(ctx):
               [65534, 65535, 65536, 65537, 131069, 131070, 131071, 131072, 196605, 196606, 200000, 1000000]):
         rq.append(storegen.gen_rollover(rng, n, nsig=rng.choice([1, 2]), every=rng.choice([1, 7, 1000])))
     rq.append(storegen.gen_rollover(rng, 140000, splits=(65535, 65536, 70000, 131070)))
+    # the same property at the file level: which `#` tokens of a VCD open a time step
+    for _ in range(400 if quick else 6000):
+        vars_ = vcdgen.gen_vars(rng, nvars=rng.choice([1, 2]), style="dense")
+        body = vcdgen.gen_body(rng, vars_, nsteps=rng.choice([1, 2, 5, 12]), back_p=0.15, rep_p=0.15, comment_p=0.03)
+        rq.append(vcdgen.request(rng.choice(["st", "rd"]), vars_, body))
     return rq
 
 
